@@ -239,3 +239,48 @@ func Harness_C11_padding() {
 		verifAssert(out[i] == pt[i], "C11/padding/plaintext-is-the-decrypted-prefix")
 	}
 }
+
+// Harness_C11_certmatch: a key genuinely wrapped to the recipient's RSA public key (which needs no
+// secret) whose embedded certificate is then replaced: the recipient's own certificate, another RSA
+// certificate, an ECDSA or Ed25519 certificate, or text that is no certificate. Decryption with the
+// recipient's private key succeeds only when the embedded certificate is the recipient's.
+func Harness_C11_certmatch() {
+	var drawn []byte
+	calls := 0
+	RandReader = verifRandReader{&drawn, &calls}
+	ti := []int{0, 6}[verifChoose("transport", 2)] // rsa-oaep-mgf1p, rsa-1_5
+	e := verifTransport(ti)
+	e.BlockCipher = AES128CBC
+	p := verifNondetBytes("p", 16)
+	el, err := e.Encrypt(verifTestCert(0, 0), append([]byte{}, p...), nil)
+	if err != nil {
+		return
+	}
+	certEl := el.FindElement("./KeyInfo/EncryptedKey/KeyInfo/X509Data/X509Certificate")
+	verifAssert(certEl != nil, "C11/certmatch/encrypter-embeds-a-certificate")
+	if certEl == nil {
+		return
+	}
+	which := verifChoose("embedded", 5)
+	switch which {
+	case 0: // left as produced: the recipient's certificate
+	case 1:
+		certEl.SetText(verifTestCertB64(0, 1))
+	case 2:
+		certEl.SetText(verifTestCertB64(1, 0))
+	case 3:
+		certEl.SetText(verifTestCertB64(2, 0))
+	case 4:
+		certEl.SetText("bm90IGEgY2VydA==")
+	}
+	out, derr := Decrypt(verifTestSigner(0, 0), el)
+	verifReach("returned")
+	if derr != nil {
+		verifReach("rejected")
+		verifAssert(which != 0, "C11/certmatch/own-certificate-is-accepted")
+		return
+	}
+	verifReach("decrypted")
+	verifAssert(which == 0, "C11/certmatch/mismatched-certificate-is-rejected")
+	verifAssert(verifBytesEqual(out, p), "C11/certmatch/plaintext")
+}
